@@ -217,6 +217,10 @@ func TsigGenerateWithProvider(m *Msg, provider TsigProvider, requestMAC string, 
 	if err != nil {
 		return nil, "", err
 	}
+	// The digest was taken over the message with its original ID (tsigBuffer
+	// put it into the header for that, and may have digested mbuf in place);
+	// the message that is sent is the caller's, its own ID included.
+	binary.BigEndian.PutUint16(mbuf[0:2], m.Id)
 	mbuf = append(mbuf, tbuf[:off]...)
 	// Update the ArCount directly in the buffer.
 	binary.BigEndian.PutUint16(mbuf[10:], uint16(len(m.Extra)+1))
